@@ -33,30 +33,30 @@ import (
 )
 
 type concScenario struct {
-	ID       string   `json:"id"`
-	Kind     string   `json:"kind"` // ref | perm | callers | panic | cancel
-	Mode     string   `json:"mode"` // full (ValidateContext) | ocsp (ocsp.CheckStatus)
-	Beh      []string `json:"beh"`  // per non-root certificate, leaf first
-	Order    []int    `json:"order,omitempty"`
-	Callers  int      `json:"callers,omitempty"`
-	PanicAt  []int    `json:"panic_at,omitempty"` // levels whose exchange panics
-	CancelAfter int   `json:"cancel_after,omitempty"` // cancel the context after this many exchanges were released (-1: when all have arrived)
-	RealFetcher bool  `json:"real_fetcher,omitempty"`
-	Rounds   int      `json:"rounds,omitempty"`
+	ID          string   `json:"id"`
+	Kind        string   `json:"kind"` // ref | perm | callers | panic | cancel
+	Mode        string   `json:"mode"` // full (ValidateContext) | ocsp (ocsp.CheckStatus)
+	Beh         []string `json:"beh"`  // per non-root certificate, leaf first
+	Order       []int    `json:"order,omitempty"`
+	Callers     int      `json:"callers,omitempty"`
+	PanicAt     []int    `json:"panic_at,omitempty"`     // levels whose exchange panics
+	CancelAfter int      `json:"cancel_after,omitempty"` // cancel the context after this many exchanges were released (-1: when all have arrived)
+	RealFetcher bool     `json:"real_fetcher,omitempty"`
+	Rounds      int      `json:"rounds,omitempty"`
 }
 
 type concResult struct {
-	ID       string   `json:"id"`
-	Outcome  string   `json:"outcome"` // returned | panic | error
-	Results  []string `json:"results,omitempty"`
-	Panic    string   `json:"panic,omitempty"`
-	Error    string   `json:"error,omitempty"`
-	Inflight int      `json:"inflight_at_return"`
-	Leaked   int      `json:"goroutines_leaked"`
-	Arrival  []int    `json:"arrival,omitempty"`
-	Ordered  bool     `json:"ordered"`
-	CallersDisagree string `json:"callers_disagree,omitempty"`
-	AllArrivedTogether bool `json:"all_arrived_together"`
+	ID                 string   `json:"id"`
+	Outcome            string   `json:"outcome"` // returned | panic | error
+	Results            []string `json:"results,omitempty"`
+	Panic              string   `json:"panic,omitempty"`
+	Error              string   `json:"error,omitempty"`
+	Inflight           int      `json:"inflight_at_return"`
+	Leaked             int      `json:"goroutines_leaked"`
+	Arrival            []int    `json:"arrival,omitempty"`
+	Ordered            bool     `json:"ordered"`
+	CallersDisagree    string   `json:"callers_disagree,omitempty"`
+	AllArrivedTogether bool     `json:"all_arrived_together"`
 }
 
 var concBehaviours = []string{"good", "revoked", "unknown-crl-clean", "unknown-crl-listed", "ocsp-500-crl-clean", "crl-only-clean", "crl-only-listed", "none"}
@@ -90,15 +90,15 @@ func concLevel(level int, beh string) levelSpec {
 
 // gate: the first exchange of each level is held until released
 type concGate struct {
-	mu       sync.Mutex
-	held     map[int]chan struct{} // level -> release channel
-	arrived  []int
-	arriveCh chan int
-	inflight int32
-	levelOf  map[string]int // URL -> level
+	mu        sync.Mutex
+	held      map[int]chan struct{} // level -> release channel
+	arrived   []int
+	arriveCh  chan int
+	inflight  int32
+	levelOf   map[string]int // URL -> level
 	firstSeen map[int]bool
-	panicAt  map[int]bool
-	gated    bool
+	panicAt   map[int]bool
+	gated     bool
 }
 
 func (g *concGate) enter(ctx context.Context, key string) error {
@@ -344,7 +344,7 @@ func runConcScenario(s concScenario) concResult {
 		}
 		res.AllArrivedTogether = arrived == need
 		type bret struct {
-			rs []*result.CertRevocationResult
+			rs  []*result.CertRevocationResult
 			err error
 			pv  any
 		}
@@ -466,9 +466,9 @@ func runConcScenario(s concScenario) concResult {
 	}
 	base := runtime.NumGoroutine()
 	type ret struct {
-		rs  []*result.CertRevocationResult
-		err error
-		pv  any
+		rs       []*result.CertRevocationResult
+		err      error
+		pv       any
 		inflight int
 	}
 	done := make(chan ret, 1)
@@ -802,9 +802,9 @@ func genC17(r *Runner) {
 	}
 	// overlapping callers, the first one disturbed while its downloads are in flight
 	for _, beh := range [][]string{{"crl-only-clean"}, {"crl-only-clean", "crl-only-listed"}, {"unknown-crl-clean", "crl-only-clean"}, {"crl-only-listed", "good", "crl-only-clean"}} {
-		add(concScenario{Kind: "callers-mixed", Mode: "full", Beh: beh, CancelAfter: -1})                 // the first caller is cancelled
+		add(concScenario{Kind: "callers-mixed", Mode: "full", Beh: beh, CancelAfter: -1})                    // the first caller is cancelled
 		add(concScenario{Kind: "callers-mixed", Mode: "full", Beh: beh, CancelAfter: 0, PanicAt: live(beh)}) // the first caller's exchanges panic
-		add(concScenario{Kind: "callers-mixed", Mode: "full", Beh: beh, CancelAfter: 0})                  // nobody is disturbed
+		add(concScenario{Kind: "callers-mixed", Mode: "full", Beh: beh, CancelAfter: 0})                     // nobody is disturbed
 	}
 	// run: groups in child processes; a crashed group is re-run one scenario per child
 	results := map[string]concResult{}
